@@ -27,6 +27,35 @@ static ModelSpec genModel(Rng &rng, bool twoPinOnly) {
   m.nc = (int)rng.range(1, 12);
   // magnitude ladder for coordinates and offsets (tolerances are relative to the span)
   float mag = rng.chance(0.7) ? 1.0f : (float)rng.pick(std::vector<double>{16.0, 1024.0, 16384.0});
+  if (rng.chance(0.04)) {
+    // a long chain of two-pin nets hanging from one or two fixed pins, the pins of each net in either order: a weakly
+    // anchored component whose optimum is known to the dense reference but which is sensitive to any spurious tie
+    m.nc = (int)rng.range(30, 160);
+    for (int k = 0; k + 1 < m.nc; ++k) {
+      NetSpec t;
+      t.hasFix = false;
+      bool flip = rng.chance(0.5);
+      t.c = {flip ? k + 1 : k, flip ? k : k + 1};
+      t.o = {(float)rng.range(-2, 2) * mag, (float)rng.range(-2, 2) * mag};
+      t.w = (float)rng.pick(std::vector<double>{0.5, 1, 1.5, 2});
+      t.mn = t.mx = 0;
+      m.span = std::max(m.span, (double)std::max(std::fabs(t.o[0]), std::fabs(t.o[1])));
+      m.nets.push_back(t);
+    }
+    int anchors = (int)rng.range(1, 2);
+    for (int a = 0; a < anchors; ++a) {
+      NetSpec t;
+      t.hasFix = true;
+      t.c = {a == 0 ? 0 : m.nc - 1};
+      t.o = {0.0f};
+      t.w = 1.0f;
+      t.mn = t.mx = (float)rng.range(-200, 200) * mag;
+      m.span = std::max(m.span, (double)std::fabs(t.mn));
+      m.nets.push_back(t);
+    }
+    for (int i = (int)m.nets.size() - 1; i > 0; --i) if (rng.chance(0.5)) std::swap(m.nets[i], m.nets[rng.range(0, i)]);
+    return m;
+  }
   int nn = (int)rng.range(1, 15);
   for (int k = 0; k < nn; ++k) {
     NetSpec t;
